@@ -176,6 +176,12 @@ MUTANTS = [
     dict(id='c14_refactor_epsalg_numpy_table', prop='C14', file=EXT, expect='clean',
          needs='nothing: abs() instead of np.abs() in the vanishing-difference guard',
          edits=[("                if np.abs(delta) <= 1.0e-60:", "                if abs(delta) <= 1.0e-60:")]),
+    dict(id='c09_legit_numerics_changed', prop='C09', file=EXT, expect='clean',
+         needs='nothing: the error-estimate constant and dea3 tolerance factor are changed - every result '
+               'changes, but identically in every history (C09 is relative to a fresh evaluation)',
+         edits=[("fact = np.maximum(12.7062047361747 * np.sqrt(cov1), EPS * 10.)",
+                 "fact = np.maximum(10.0 * np.sqrt(cov1), EPS * 10.)"),
+                ("np.where(converged, tol2 * 10, np.abs(result - e_2))", "np.where(converged, tol2 * 8, np.abs(result - e_2))")]),
     dict(id='c09_legit_setter_validation', prop='C09', file=CORE, expect='clean',
          needs='nothing: the order / n setters reject invalid values with ValueError (the object keeps its '
                'old configuration); the plan-level model of "current configuration" must not be trusted '
